@@ -222,9 +222,8 @@ def _main(a, prop, seed, t0):
         for k_ in ('evaluations', 'distinct_nontrivial', 'rule', 'samples'): ev['coverage'][k_] = rt['coverage'].get(k_)
         ev['coverage']['explanation'] = ('property claimed at the bounded level (runtime contracts on generated inputs); in addition the listed obligations on the functions under contract '
                                          'are discharged deductively on every run (keys obligations/discharged/functions_under_contract)')
-    os.makedirs(os.path.join(ROOT, 'evidence'), exist_ok=True)
     if not a.only:
-        json.dump(ev, open(os.path.join(ROOT, 'evidence', f'{prop}.json'), 'w'), indent=1, default=str)
+        json.dump(ev, open(_evidence_path(prop), 'w'), indent=1, default=str)
     # ---- report
     print(f"{prop} [{tier}] obligations {proved_inst}/{total_inst} discharged ({len(names)-len(failed)}/{len(names)} names); "
           f"backends {backends}; solver {solver_s:.1f}s; gen {gen_s:.1f}s; wall {wall:.1f}s"
@@ -248,6 +247,13 @@ def _main(a, prop, seed, t0):
         return 2
     return 0
 
+def _evidence_path(prop):
+    """evidence/<P>.json describes runs against /repo itself; a run against a scratch tree (PYVC_REPO_SRC, used for seeded changes) writes elsewhere"""
+    src = os.environ.get('PYVC_REPO_SRC')
+    d = os.path.join(ROOT, 'evidence') if (not src or os.path.realpath(src) == os.path.realpath('/repo/src')) else os.path.join(ROOT, 'replays', 'scratch-evidence')
+    os.makedirs(d, exist_ok=True)
+    return os.path.join(d, f'{prop}.json')
+
 def _bounded_only(a, prop, seed, t0, mod, tier):
     """properties (or the part of them) for which no contract is discharged yet: the runtime form of the contracts on generated inputs,
     labelled bounded (level 'exploration'); never reported as proved"""
@@ -265,8 +271,7 @@ def _bounded_only(a, prop, seed, t0, mod, tier):
     cov['explanation'] = 'bounded stand-in: runtime contracts evaluated on the real code over generated inputs; no obligation of this property is discharged deductively (see MANIFEST level_note)'
     ev = dict(property_id=prop, tier=tier, seed=seed, level='exploration', coverage=cov,
               assumptions=list(getattr(mod, 'TRUSTED', [])) + ['bounded: only the generated inputs are covered'], wall_s=round(time.time() - t0, 2), violations=len(viol))
-    os.makedirs(os.path.join(ROOT, 'evidence'), exist_ok=True)
-    json.dump(ev, open(os.path.join(ROOT, 'evidence', f'{prop}.json'), 'w'), indent=1, default=str)
+    json.dump(ev, open(_evidence_path(prop), 'w'), indent=1, default=str)
     print(f"{prop} [{tier}] BOUNDED ONLY: runtime evaluations {cov['evaluations']} ({cov['distinct_nontrivial']} distinct non-trivial), {len(rt['violations'])} contract violations; wall {time.time() - t0:.1f}s")
     seen = set()
     for k, what in known_lines:
